@@ -84,6 +84,8 @@ func spec_pkgInfoOf(p Package) *pkgInfo { pi, _ := p.(*pkgInfo); return pi }
 //@   requires pkg != nil && pkg.Types != nil && pkg.Types.Scope() != nil && pkg.TypesInfo != nil && pkg.Fset != nil && u != nil
 //@   assume forall id *ast.Ident :: has(pkg.TypesInfo.Defs, id) && pkg.TypesInfo.Defs[id] != nil && pkg.TypesInfo.Defs[id].Parent() == pkg.Types.Scope() ==> pkg.Types.Scope().Lookup(pkg.TypesInfo.Defs[id].Name()) == pkg.TypesInfo.Defs[id]
 //@   assume forall n string :: pkg.Types.Scope().Lookup(n) != nil ==> pkg.Types.Scope().Lookup(n).Name() == n && pkg.Types.Scope().Lookup(n).Parent() == pkg.Types.Scope() && (exists id *ast.Ident :: has(pkg.TypesInfo.Defs, id) && pkg.TypesInfo.Defs[id] == pkg.Types.Scope().Lookup(n))
+//@   assume forall n string :: spec_scopeFunc(pkg, n) != nil ==> spec_recvOf(spec_scopeFunc(pkg, n)) == nil
+//@   note (assume 3) go/types: a function in the package scope has no receiver (methods are not in any scope)
 //@   note (assume 1, 2) go/types: an object whose parent is the package scope is what Lookup(its name) returns; every package-scope object carries its own name, has the package scope as parent and is the Defs entry of its declaring identifier
 //@   ensures spec_pkgInfoOf(result) != nil && fresh(spec_pkgInfoOf(result)) && spec_pkgInfoOf(result).Package == pkg && spec_pkgInfoOf(result).u == u
 //@   ensures forall n string :: has(spec_pkgInfoOf(result).types, n) ==> spec_pkgInfoOf(result).types[n] != nil && spec_pkgInfoOf(result).types[n] == spec_scopeType(pkg, n)
@@ -111,9 +113,17 @@ func spec_recorded(p *pkgInfo, pkg *packages.Package, o types.Object) bool {
 		return spec_has(p.constants, c.Name())
 	}
 	if f, ok := o.(*types.Func); ok {
-		return spec_has(p.funcs, f.Name())
+		return spec_recvOf(f) != nil || spec_has(p.funcs, f.Name())
 	}
 	return true
+}
+
+func spec_recvOf(f *types.Func) *types.Var {
+	s, _ := f.Type().(*types.Signature)
+	if s == nil {
+		return nil
+	}
+	return s.Recv()
 }
 
 // ---- references (C15) ----
